@@ -30,9 +30,14 @@ RULE = ('ro histories (C01 generator): distractor sets of every primitive kind a
         'do_math / do_math(primal=False) / solve with a random interface after the objective or '
         'between rows, rows added after a solve, a decision variable and a decision rule declared '
         'after the first solve and used in later rows, one expression object used in two '
-        'constraints with different sets; dro histories (C03 generator): second ambiguity object '
-        'with other sets, support redefined, solve then more constraints, expression reused inside '
-        'E(maxof) and in a worst-case constraint, variable declared after the first formulation. '
+        'constraints with different sets, a random variable declared between two uses of a rule, '
+        'forall() attached to constraints already in the (formulated) model, box sets written '
+        'with exponential constraints only; dro histories (C03 generator): second ambiguity object '
+        'with other sets, support / probability set redefined, one event declared in two exptset '
+        'calls, solve then more constraints, expression reused inside E(maxof) and in a worst-case '
+        'constraint, variable declared after the first formulation, forall(<second ambiguity set>) '
+        'and adapt() calls made after the constraints were added or after a first solve; 10 %: '
+        'event-wise decisions in deterministic rows with late adapt() calls against a closed form. '
         'Non-trivial: optimal and the history contained a mid-solve or a distractor that differs '
         'from the real set; distinct by (front, history ops, set kinds, mode)')
 ASSUMPTIONS = ['fresh build and history are solved by the same interface; tolerance 1e-6 (LP) / '
